@@ -20,6 +20,13 @@ EDGE_U = {
     "mixed": [0, 1, "x", "1", 2.0, (0, 1), 5, 7],
     "wide": [0, 1, 2, 3, 5, 8, 11, 13, 21],
 }
+try:
+    import numpy as _np
+
+    NODE_U["npints"] = [_np.int64(x) for x in (0, 1, 2, 3, 4, 5)] + [6, 7]  # numpy and python ints mixed
+    EDGE_U["npints"] = [_np.int64(x) for x in (0, 1, 2, 5, 8)] + [3, 10]
+except Exception:  # pragma: no cover
+    pass
 ATTR_KEYS = ["color", "w", "label", "tag", "weight"]
 ATTR_VALS = [0, 1, 2, "red", "blue", 0.5, None, True]
 MTYPES = ["list", "list", "list", "tuple", "set", "frozenset"]
@@ -276,7 +283,7 @@ class Gen:
             # non-increasing explicit IDs inside one bulk call
             try:
                 items.sort(key=lambda it: it[1], reverse=True)
-            except TypeError:
+            except Exception:
                 pass
         return items
 
@@ -349,6 +356,8 @@ class Gen:
     def g_H_merge_duplicate_edges(self, name, m, op):
         rename = self.r.choice(["first", "first", "tuple", "new", "bogus"] if self.r.random() < 0.3
                                else ["first", "tuple", "new"])
+        if self.profile == "npints" and rename == "tuple":
+            rename = "first"  # numpy ints compared with tuple IDs broadcast: not a label mix worth modelling
         rule = self.r.choice(["first", "union", "intersection"] + (["bogus"] if self.r.random() < 0.1 else []))
         mult = self.r.choice([None, None, "mult", "weight"])
         return self.rec(name, op, {"rename": rename, "merge_rule": rule, "multiplicity": mult})
